@@ -3,7 +3,7 @@ import AgModel.Model.Merkle
 import AgModel.Model.Blockstore
 /-
 Model of `src/repair.rs` (import-free, executable): the requester `Repair` (outstanding requests,
-timeout queue, proven slice roots, the three response handlers with their checks in code order) and
+timeout queue, proven slice roots, proven last slice indices, the three response handlers with their checks in code order) and
 the responder `RepairRequestHandler::try_build_response`, over `AgModel.Blockstore`.
 
 Abstractions: the request hash is injective (the request itself is the key); the timeout heap is a
@@ -58,8 +58,10 @@ structure RepairSt where
   /-- earliest first -/
   timeouts : List Req
   sliceRoots : List ((Bid × Nat) × Nat)
+  /-- `last_slices`: the last slice index of a block, as proven by an accepted `LastSliceRoot` response -/
+  lastSlices : List (Bid × Nat)
 
-def RepairSt.init : RepairSt := ⟨[], [], []⟩
+def RepairSt.init : RepairSt := ⟨[], [], [], []⟩
 
 def rootGet (m : List ((Bid × Nat) × Nat)) (k : Bid × Nat) : Option Nat :=
   match m with
@@ -70,6 +72,16 @@ def rootSet (m : List ((Bid × Nat) × Nat)) (k : Bid × Nat) (v : Nat) : List (
   match m with
   | [] => [(k, v)]
   | (k', w) :: rest => if k' = k then (k', v) :: rest else (k', w) :: rootSet rest k v
+
+def lastGet (m : List (Bid × Nat)) (k : Bid) : Option Nat :=
+  match m with
+  | [] => none
+  | (k', v) :: rest => if k' = k then some v else lastGet rest k
+
+def lastSet (m : List (Bid × Nat)) (k : Bid) (v : Nat) : List (Bid × Nat) :=
+  match m with
+  | [] => [(k, v)]
+  | (k', w) :: rest => if k' = k then (k', v) :: rest else (k', w) :: lastSet rest k v
 
 /-- `send_request`: (re)registers the request and its timeout; the request goes out -/
 def sendRequest (st : RepairSt) (r : Req) : RepairSt :=
@@ -105,7 +117,8 @@ def fireTimeout (st : RepairSt) : RepairSt × Out :=
 
 def done (st : RepairSt) (r : Req) : RepairSt := { st with outstanding := st.outstanding.filter (· ≠ r) }
 
-/-- `handle_response` (with fix D4: the request stays outstanding until a response passed validation) -/
+/-- `handle_response` (with fix D4: the request stays outstanding until a response passed validation;
+    with fix D26: a repaired shred's last-slice flag is compared with the proven last slice index) -/
 def handleResponse (env : Nat → Content) (cap : Nat) (st : RepairSt) (store : Store) (resp : Resp) :
     RepairSt × Store × Out :=
   if resp.req ∉ st.outstanding then (st, store, {})
@@ -117,7 +130,8 @@ def handleResponse (env : Nat → Content) (cap : Nat) (st : RepairSt) (store : 
         if !checkProofLast root lastSlice b.hash proof then (st, store, {})
         else
           let st := done st r
-          let st := { st with sliceRoots := rootSet st.sliceRoots (b, lastSlice) root }
+          let st := { st with sliceRoots := rootSet st.sliceRoots (b, lastSlice) root,
+                              lastSlices := lastSet st.lastSlices b lastSlice }
           let reqs := (List.range (lastSlice + 1)).map (fun i => Req.root b i)
           (sendAll st reqs, store, { sent := reqs })
       | _ => (st, store, {})
@@ -139,6 +153,8 @@ def handleResponse (env : Nat → Content) (cap : Nat) (st : RepairSt) (store : 
           | none => (st, store, { panic := true })   -- `unreachable!("issued repair request (Shred) before knowing slice root")`
           | some root =>
             if s.root ≠ root then (st, store, {})
+            -- fix D26: the last-slice flag must agree with the proven last slice index
+            else if s.isLast ≠ decide (lastGet st.lastSlices b = some slice) then (st, store, {})
             else if !sigOk then (st, store, {})
             else
               let st := done st r
